@@ -23,7 +23,9 @@ HDRS = [("X-A", "1"), ("Content-Type", "text/html"), ("Cache-Control", "no-cache
         ("Content-Type", "a/b"), ("Set-Cookie", "a=b; Path=/"), ("X-Empty", ""),
         # names the library manages itself, in several letter cases: they must never reach the wire
         ("Transfer-Encoding", "chunked"), ("transfer-encoding", "chunked"), ("TRANSFER-ENCODING", "gzip"),
-        ("connection", "close"), ("Connection", "keep-alive"), ("trailer", "X-T"), ("upgrade", "h2c")]
+        ("connection", "close"), ("Connection", "keep-alive"), ("trailer", "X-T"), ("upgrade", "h2c"),
+        # a length the application supplies that is no length: documented to have no effect, so it must not reach the wire
+        ("Content-Length", "unknown"), ("content-length", "-1"), ("Content-Length", "99999999999999999999"), ("CONTENT-LENGTH", "12.0")]
 
 
 def gen(tier, rng):
